@@ -29,11 +29,14 @@ struct TObs {
 }
 
 /// tokens of the CST with the positions the implementation reports; None = no CST (invalid UTF-8)
-fn observe_tokens(src: &[u8]) -> Result<Option<(Vec<TObs>, bool)>, String> {
+/// `positions = false` (very long inputs): only the text round-trip of the CST is observed,
+/// start_pos is quadratic in the number of tokens
+fn observe_tokens(src: &[u8], positions: bool) -> Result<Option<(Vec<TObs>, bool)>, String> {
     catch(AssertUnwindSafe(|| {
         let cst = match Parser::new(src).try_into_cst() { Ok(c) => c, Err(_) => return None };
         let root = cst.root();
         let root_text_ok = root.text().to_string().as_bytes() == src;
+        if !positions { return Some((vec![], root_text_ok)); }
         let mut toks = vec![];
         let mut t = root.first_token();
         while let Some(tok) = t { t = tok.next_token(); toks.push(tok); }
@@ -87,7 +90,12 @@ fn ast_spans(src: &[u8]) -> Result<Vec<(u64, u64)>, String> {
     }))
 }
 
-fn main() { let args: Vec<String> = std::env::args().skip(1).collect(); std::process::exit(run(&args)); }
+fn main() {
+    let args: Vec<String> = std::env::args().skip(1).collect();
+    // the parser, the AST builder and the drop of a deep rowan tree recurse: big stack
+    let h = std::thread::Builder::new().stack_size(2 << 30).spawn(move || run(&args)).unwrap();
+    std::process::exit(h.join().unwrap_or(3));
+}
 
 fn run(args: &[String]) -> i32 {
     quiet_panics();
@@ -103,13 +111,17 @@ fn run(args: &[String]) -> i32 {
     let mut distinct = std::collections::HashSet::new();
     let mut samples = vec![];
     let mut corpus = corpus();
+    let mut deep = very_deep_inputs();
     let mut attempts = 0usize;
     while shards.total < n && attempts < n * 20 {
         attempts += 1;
-        let (stream, src) = if !corpus.is_empty() { ("corpus".to_string(), corpus.remove(0)) } else { gen_source(&mut rng) };
+        let (stream, src) = if !corpus.is_empty() { ("corpus".to_string(), corpus.remove(0)) }
+            else if !deep.is_empty() { shards.flush(); ("very_deep".to_string(), deep.remove(0)) }   // one shard per very deep case
+            else { gen_source(&mut rng) };
+        let very_deep = stream == "very_deep";
         let raw = catch(AssertUnwindSafe(|| Parser::new(&src).collect::<Vec<Event>>())).ok();
         let ntok = raw.as_ref().map(|v| v.iter().filter(|e| matches!(e, Event::Token { .. })).count()).unwrap_or(0);
-        if ntok > max_tokens { stats.inc("skipped_too_long"); continue; }
+        if ntok > max_tokens && !very_deep { stats.inc("skipped_too_long"); continue; }
         let cst = catch(AssertUnwindSafe(|| CSTStream::from(Parser::new(&src)).collect::<Vec<Event>>())).ok();
         // token texts concatenate to the source
         let texts_ok = raw.as_ref().map(|v| {
@@ -117,8 +129,9 @@ fn run(args: &[String]) -> i32 {
             for e in v { if let Event::Token { span, .. } = e { match src.get(span.range()) { Some(t) => acc.extend_from_slice(t), None => return false } } }
             acc == src
         }).unwrap_or(false);
-        let toks = observe_tokens(&src);
+        let toks = observe_tokens(&src, !very_deep);
         let (toks_coq, root_text_ok, have_cst) = match &toks {
+            Ok(Some((_, ok))) if very_deep => ("None".to_string(), *ok, false),
             Ok(Some((os, ok))) => (format!("(Some {})", coq_list(os, |o| format!(
                 "mkTObs {} {} {} {} ({},{}) ({},{}) ({},{}) ({},{}) ({},{}) ({},{}) {} {} {} {}",
                 o.class, coq_list(&o.text, |c| c.to_string()), o.lo, o.hi,
@@ -163,6 +176,7 @@ fn run(args: &[String]) -> i32 {
             raw.is_none(), cst.is_none(), ast.is_none(), match &gap { Some(g) => json_str(g), None => "null".into() }, texts_ok, root_text_ok, own_fail);
         if samples.len() < 3 && ntok >= 20 { samples.push(replay.clone()); }
         shards.push(case, replay);
+        if very_deep { shards.flush(); }
     }
     shards.flush();
     println!("{{\"evaluations\":{},\"distinct_nontrivial\":{},\"shards\":{},\"distribution\":{},\"samples\":[{}]}}",
@@ -195,7 +209,7 @@ fn replay(src: &[u8]) -> i32 {
             if depth != 0 { bad.push("unbalanced Begin/End".into()); }
         }
     }
-    match observe_tokens(src) {
+    match observe_tokens(src, src.len() < 4000) {
         Ok(Some((os, ok))) => {
             if !ok { bad.push("CST root text differs from the source".into()); }
             for (i, o) in os.iter().enumerate() {
@@ -207,6 +221,16 @@ fn replay(src: &[u8]) -> i32 {
     }
     match ast_spans(src) { Ok(v) => for (a, b) in v { if a > b || b as usize > src.len() { bad.push(format!("AST span {a}..{b} outside the source")); } }, Err(e) => bad.push(format!("AST builder panicked: {e}")) }
     if bad.is_empty() { println!("property holds on this input"); 0 } else { for b in &bad { println!("VIOLATED: {b}"); } 1 }
+}
+
+/// CSTs nested deeper than 3000 levels (beyond MAX_AST_DEPTH): the parser must still be lossless
+fn very_deep_inputs() -> Vec<Vec<u8>> {
+    vec![
+        format!("rule d {{condition: {}true}}", "not ".repeat(3100)).into_bytes(),
+        format!("rule d {{condition: {}true{}}}", "(".repeat(1600), ")".repeat(1600)).into_bytes(),
+        format!("rule d {{condition: {}1{} == 1}} rule e {{condition: true}}", "-(".repeat(1600), ")".repeat(1600)).into_bytes(),
+        format!("rule d {{condition: {}true}} rule e {{condition: true}}", "(".repeat(1700)).into_bytes(),   // unbalanced
+    ]
 }
 
 /// minimized inputs that exercised something once; they run first
